@@ -865,6 +865,12 @@ def register(eng):
         for t, itg, ty, bl, bounds, methods, cself, mod in eng.impls:
             if t == "From" and cself == want and "from" in methods and eng.canon_type(itg, mod) == have:
                 return eng.call_fn(methods["from"], [v])
+        # the target may be an imported type (`use crate::Error`): accept a unique impl for a type
+        # of the same base name
+        c = [methods["from"] for t, itg, ty, bl, bounds, methods, cself, mod in eng.impls
+             if t == "From" and "from" in methods and cself.split("::")[-1] == want.split("::")[-1] and eng.canon_type(itg, mod) == have]
+        if len(c) == 1:
+            return eng.call_fn(c[0], [v])
         raise Unmodelled("error conversion From<%s> for %s" % (have, want))
     eng.convert_from = convert_from
 
